@@ -16,6 +16,11 @@
 #include <sys/mman.h>
 #include <sys/wait.h>
 #include <sys/time.h>
+#ifdef VX_COV /* diagnostic coverage builds (bin/coverage): flush the profile before every _exit */
+extern int __llvm_profile_write_file(void);
+static void cov_exit(int c) { __llvm_profile_write_file(); _exit(c); }
+#define _exit cov_exit
+#endif
 
 #if __M4RI_ENABLE_MMC
 extern mmb_t m4ri_mmc_cache[__M4RI_MMC_NBLOCKS];
